@@ -408,7 +408,7 @@ func c10Snapshots(driver string, depth, shard, nshards int) vh.Unit {
 			},
 			Key: func(wi interface{}) string {
 				w := wi.(*world)
-				return fmt.Sprintf("%d|%s", vsched.Elapsed(), vh.StoreView(w.st, []string{"a", "b"}, []string{"W1"}))
+				return fmt.Sprintf("%d|%s|%s", vsched.Elapsed(), vh.StoreView(w.st, []string{"a", "b"}, []string{"W1"}), vh.StateKey(w.st))
 			},
 		})
 	}}
